@@ -66,7 +66,14 @@ func genSchema(r *Rng, o *Out) (*jsonapi.Schema, []stype) {
 // number of types is what it was. Returns the type that was added (part of the schema now).
 func schemaWithPast(s *jsonapi.Schema, o *Out) stype {
 	old := jsonapi.Type{Name: "zz-old", Attrs: map[string]jsonapi.Attr{"x": {Name: "x", Type: jsonapi.AttrTypeInt}}, Rels: map[string]jsonapi.Rel{}}
-	s.Types = append([]jsonapi.Type{old}, s.Types...)
+	// rebuilt the way an application builds it: the old type first, then every present
+	// type, each through AddType
+	present := s.Types
+	s.Types = nil
+	_ = s.AddType(old)
+	for i := range present {
+		_ = s.AddType(present[i])
+	}
 	for i := range s.Types {
 		_ = s.HasType(s.Types[i].Name)
 		_ = s.GetType(s.Types[i].Name)
@@ -906,10 +913,24 @@ func suiteLiterals(r *Rng, n int, thorough bool, o *Out) {
 	putRel(&typ, jsonapi.Rel{FromType: "t", FromName: "many2", ToOne: false, ToType: "t"})
 	putType(s, typ)
 	ts := []stype{{typ, false}}
+	ts = append(ts, schemaWithPast(s, o)) // one schema for the whole suite: it has a past
 	ssx := sxSSchema(ts)
+	// the same type as the struct a user would declare for it (its ID comes from an embedded
+	// struct), built with BuildType: a third of the literals are read into it
+	sB := &jsonapi.Schema{}
+	ssxB := ""
+	if bt, err := jsonapi.BuildType(reflect.New(structTypeFor(typ)).Interface()); err == nil && sxType(stripNewFunc(bt)) == sxType(typ) {
+		putType(sB, bt)
+		ssxB = sxSSchema([]stype{{bt, true}})
+	}
 	emitOne := func(name, lit string) {
 		a := typ.Attrs[name]
 		data := []byte(`{"id":"1","type":"t","attributes":{` + jstr(name) + `:` + lit + `}}`)
+		s, ssx := s, ssx
+		if ssxB != "" && r.chance(1, 3) {
+			s, ssx = sB, ssxB
+			o.stat("into-struct")
+		}
 		obs, pv, res := runUnmarshalRes("UnmarshalResource", data, s, false)
 		if res != nil {
 			if m := faithful(a, strings.TrimSpace(lit), res.Get(name)); m != "" {
